@@ -5,7 +5,7 @@ V = os.path.dirname(os.path.dirname(os.path.abspath(__file__)))
 props = [json.loads(l) for l in open(os.path.join(V, 'properties.jsonl'))]
 ids = [p['id'] for p in props]
 
-TRUST = "Trusted: go/ssa front end, the gosmt encoder in /verif/engine, z3 (5.1.0 deciding, 4.8.12/cvc5 cross-check in thorough), the stub contracts listed in the evidence file's assumptions. "
+TRUST = "Trusted: go/ssa front end, the gosmt encoder in /verif/engine, the SMT solvers (z3 5.1.0 incremental session deciding; harnesses marked oneshot send every obligation to z3 5.1.0, z3 4.8.12 and cvc5 1.0 side by side and take the first definite verdict), the stub contracts listed in the evidence file's assumptions. "
 
 CHECKS = {
  # id: (design_ref, claim text, note)
@@ -31,7 +31,7 @@ for pid in ids:
         "engine": "gosmt",
         "level_claimed": {"category": "model_checking", "text": text, "design_ref": ref},
         "level_note": TRUST + note,
-        "technique": "bounded symbolic execution of the real Go SSA into SMT (bit-vectors), obligations decided by z3 (unsat = holds within the stated bounds; sat = counterexample, replayed natively where a driver exists)",
+        "technique": "bounded symbolic execution of the real Go SSA into SMT (bit-vectors), obligations decided by an SMT solver (z3 5.1.0, or the z3 5.1.0 / z3 4.8.12 / cvc5 portfolio for the wallet harnesses; unsat = holds within the stated bounds; sat = counterexample, replayed natively where a driver exists)",
     })
 na = [{"property_id": pid, "reason": NA.get(pid, "check not built yet (construction in progress, see DESIGN.md section 10)")} for pid in ids if pid not in CHECKS]
 hooks_commits = []
@@ -41,7 +41,7 @@ m = {
  "hooks": {"guard": "verif", "enable": "harness files carry //go:build verif and are injected into the target package by go/packages Overlay (symbolic side) or go test -overlay -tags verif (native replay); nothing guarded is committed to /repo",
            "baseline_off_cmd": "cd /repo && GOFLAGS=-mod=mod GOPROXY=off GOSUMDB=off GOTOOLCHAIN=local go test -vet=off -count=1 -timeout 25m ./...",
            "source_commits": hooks_commits, "add_only": True},
- "engines": [{"name": "gosmt", "path": "engine", "serves_properties": sorted(CHECKS), "kind_free_text": "Go SSA (x/tools v0.29.0) -> SMT-LIB2 bounded symbolic executor with fork/merge at post-dominators, loop unwinding with unwinding assertions, heap/slice/map/interface/channel/mutex models; z3 back end; native replay of counterexamples via go test -overlay"}],
+ "engines": [{"name": "gosmt", "path": "engine", "serves_properties": sorted(CHECKS), "kind_free_text": "Go SSA (x/tools v0.29.0) -> SMT-LIB2 bounded symbolic executor with fork/merge at post-dominators, loop unwinding with unwinding assertions, heap/slice/map/interface/channel/mutex models; z3 / cvc5 back ends; native replay of counterexamples via go test -overlay"}],
  "checks": checks,
  "notes": "exit 0 = all obligations discharged (or only KNOWN-FINDING lines); exit 1 = VIOLATION; exit 2 = inconclusive (timeout/unknown, unwinding assertion failed, harness no longer compiles against the tree, counterexample did not reproduce). See DESIGN.md.",
  "not_applicable": na,
